@@ -212,7 +212,8 @@ def rule_c(ctx):
     idx_ok = False
     for o in po:
         for c in origin_calls(o):
-            if c[2] in ("std::ops::IndexMut::index_mut", "std::ops::Index::index"):
+            if c[2] in ("std::ops::IndexMut::index_mut", "std::ops::Index::index", "core::slice::<impl [T]>::get_mut", "core::slice::<impl [T]>::get",
+                        "std::vec::Vec::get_mut", "std::vec::Vec::get"):
                 cs = Site(b, c[1], TERM)
                 io = b.origins(cs.args()[1], cs)
                 co = b.origins(cs.args()[0], cs)
